@@ -21,8 +21,10 @@
     correctness of the square-free part, the unreachability of both [expect]s are proved for all inputs [P];
     irreducibility of the returned polynomials and the product clause [a = c * prod f_i^e_i] are proved for
     every completed run whose prime search returned a prime below 2^31 [C] (Landau-Mignotte bound, uniqueness
-    of Hensel lifts, completeness of the subset search). NOT proved: the same without that run-computed
-    condition; termination of the prime search and (for all draw streams) of the modular factorisation. *)
+    of Hensel lifts, completeness of the subset search). Fifth wave ([factorize_correct_sized]): the
+    run-computed condition is replaced by a bound on the input size (degree <= 25, coefficients below 2^(2^24)).
+    NOT proved: the same for larger inputs; termination of the prime search and (for all draw streams) of the
+    modular factorisation. *)
 From RNT.Model Require Import Base Poly PolyZFactor.
 From mathcomp Require Import all_ssreflect ssralg poly.
 From mathcomp Require Import ssrZ.
